@@ -55,5 +55,14 @@ def run(ctx):
     ctx.guard(persistent_state_rule, ctx, "C17.own-pattern")
     from ..rules_misc import error_carriers_rule
     ctx.guard(error_carriers_rule, ctx, "C17.error-carriers")
+    # the citation rewrite / restore pair of assemble() meets every qualifier list once only if fragments and copies own
+    # their features (a list shared between an input and the product is rewritten twice and the restore pass then finds
+    # text where it expects a reference: AttributeError)
+    from ..rules_flow import ctor_rule, getitem_rule
+    ctx.guard(getitem_rule, ctx, "C17.citation-pass.getitem")
+    ctx.guard(ctor_rule, ctx, "C17.citation-pass.ctor")
+    # the regex syntax a structure() may use must survive the transcription (no re.error at validation time)
+    from ..rules_flow import transcription_rule
+    ctx.guard(transcription_rule, ctx, "C17.transcription", True)
     from ..rules_misc import helper_rules
     ctx.guard(helper_rules, ctx, "C17.helpers")
